@@ -129,3 +129,20 @@ def module_of(fn: str) -> str:
         if g.name == head or g.algebra == head:
             return g.mod
     return head
+
+
+def octant_rotvecs(angles=(2.2, 2.6, 3.0, 3.6, 4.0)):
+    """rotation vectors whose axis has every sign pattern and every dominant component, at angles where the
+    matrix -> quaternion extraction leaves its scalar-pivot branch (120..240 degrees): a quaternion with negative
+    scalar part, a negative dominant axis component, every Shepperd branch"""
+    out = []
+    for dom in range(3):
+        for sx in (1.0, -1.0):
+            for sy in (1.0, -1.0):
+                for sz in (1.0, -1.0):
+                    ax = np.array([0.36 * sx, 0.48 * sy, 0.3 * sz])
+                    ax[dom] = [sx, sy, sz][dom] * 0.8
+                    ax = ax / np.linalg.norm(ax)
+                    for th in angles:
+                        out.append(ax * th)
+    return out
